@@ -19,7 +19,7 @@ use vcommon::{
 
 use crate::c12::{build_corpus, restore_stub, target_dir, write_corpus, Rng};
 
-pub const RULE: &str = "corpus = K generated interfaces (quick 60, thorough 400): 0..3 custom types \
+pub const RULE: &str = "corpus = K generated interfaces (quick 90, thorough 400): 0..3 custom types \
 (structs with fields over every type constructor to depth 2, enums), 1..4 methods with 0..3 inputs \
 and outputs, 0..3 errors; non-recursive, names collision-free after snake / Pascal conversion, \
 drawn from pools that contain acronyms (GetURL), digits (Get2FA), camelCase / snake_case / kebab \
@@ -523,7 +523,7 @@ fn strip_nulls_none(v: &Value) -> Value {
 }
 
 pub fn run(ctx: &Ctx) -> i32 {
-    let n = ctx.tier.pick(60usize, 400);
+    let n = ctx.tier.pick(90usize, 400);
     let mut rng = Rng::new(ctx.subseed("corpus15", 0));
     let mut stats = Stats::default();
     let mut viol: Vec<Violation> = Vec::new();
